@@ -160,6 +160,11 @@ func runWorld(name string, seed uint64, replay []int32) *Result {
 		res.Trace = string(k.Trace())
 	}
 	switch {
+	case k.StepCap:
+		// a run cut short by the step cap asserts nothing (liveness oracles
+		// would misfire); it is counted, never reported
+		res.Outcome = "inconclusive"
+		res.Msg = "step cap reached"
 	case len(w.viols) > 0:
 		res.Outcome = "violation"
 		sort.SliceStable(w.viols, func(i, j int) bool { return w.viols[i].oracle < w.viols[j].oracle })
@@ -171,9 +176,6 @@ func runWorld(name string, seed uint64, replay []int32) *Result {
 	case w.incon != "":
 		res.Outcome = "inconclusive"
 		res.Msg = w.incon
-	case k.StepCap:
-		res.Outcome = "inconclusive"
-		res.Msg = "step cap reached"
 	default:
 		res.Outcome = "ok"
 	}
